@@ -489,6 +489,8 @@ def run(ctx):
               message=f"InMemoryStorage.create_new_trial stores `{norm(kept[0].value) if kept else tprm}`: the stored trial shares nested objects (values list, params / attrs dicts) with the "
                       f"template, so modifying a trial that was read with a deep copy and then added to another study changes what that study returns",
               how="trial = copy.deepcopy(template_trial)")
+    from rules._template import template_copies_are_deep
+    template_copies_are_deep(ctx, "R20.1", "Editing the trial object one has added (or adding it again elsewhere after an edit) then changes what the study returns")
     # ------------------------------------------------------------- R20.8 study attribute dicts are replaced, not mutated
     ctx.rule("R20.8", "a study's user/system attribute dict that a storage getter hands out by reference is never mutated in place: writers "
              "replace it (copy-on-write), so the reference a reader holds - and copies outside the storage lock - is a snapshot")
